@@ -490,6 +490,9 @@ func (r *runner) collectReach(ri *rootInfo) (out, inl []int) {
 		if nd == nil {
 			var err error
 			if nd, err = r.rec.NodeDB.GetNode(root, ptr); err != nil {
+				// the database already lost this node (known badger findings): it still belongs
+				// to the root; its subtree cannot be enumerated
+				out = append(out, r.nid(ptr.Hash))
 				return
 			}
 		}
@@ -716,6 +719,34 @@ func (r *runner) step(op Op) (o opObs) {
 		if err != nil {
 			o.errText = err.Error()
 			break
+		}
+		if r.kind == "badger" {
+			// nodes this Prune deleted (written in the pruned version, member of a root without
+			// derived roots) that a root of a later version still contains, possibly as an attached leaf
+			for rid := range r.ref.present[op.Ver] {
+				if len(r.ref.derived[vr(op.Ver, rid)]) != 0 {
+					continue
+				}
+				for _, n := range r.reach[rid] {
+					if !r.putAt[int(op.Ver)][n] {
+						continue
+					}
+					for v2, rs := range r.ref.present {
+						if v2 <= op.Ver {
+							continue
+						}
+						for rid2 := range rs {
+							for _, m := range r.reach[rid2] {
+								if m == n {
+									if _, ok := r.lost[n]; !ok {
+										r.lost[n] = finKey
+									}
+								}
+							}
+						}
+					}
+				}
+			}
 		}
 		r.ref.earliest = op.Ver + 1
 	}
@@ -1334,7 +1365,9 @@ func (g *genState) errorOps(ver, earliest uint64, cands, pruned []int) {
 		}
 	case 5: // old root from the right version that does not exist (its commit was rejected)
 		if ver > earliest {
-			bad := g.commit(ver-1, 1, 0, []Write{{Key: 3, Val: 2}, {Key: 5, Val: 2}})
+			// (value 3 is used nowhere else: badger's root-node keys carry no version, so a typed hash
+			// that was a root of ANY version passes GetNode's root check - not modelled in Badger.v)
+			bad := g.commit(ver-1, 1, 0, []Write{{Key: 3, Val: 3}, {Key: 5, Val: 3}})
 			var ws []Write
 			if r.Chance(50) {
 				ws = []Write{{Key: 2, Val: 2}}
